@@ -6,6 +6,7 @@ from ..common import fail, call_lib, LibError, finite
 from ..gen import atoms, scenes as S
 from ..gen.colliders import KINDS, build, transform as transform_spec
 from ..ref.shapes import ref
+from ..ref.refdist import refdist
 from . import prim
 from .narrow import boolean_tests, pair_tag, is_primitive_pair
 from .c07 import simplex_class
@@ -198,16 +199,29 @@ def check_narrow(case):
                                       r1[1], gk, r2[1], r1[1] * s, band, tag), query="mpr", g=gk,
                                   centres_coincide=bool(coincident), both_admissible=admissible))
 
-        def gjk_epa(a, b):
-            rr = gjk.gjk(a, b)
-            if rr[0] != 0.0:
-                return None
-            sc = simplex_class(np.array(rr[3], dtype=float), L)[0]
-            if not sc.startswith("tetra"):
-                return None
-            m = epa(rr[3], a, b)
-            return float(np.linalg.norm(m[0])) if m[2] else None
-        e1, e2 = both(gjk_epa)
+        def gjk_epa_on(sc_, L_):
+            def run(a, b):
+                rr = gjk.gjk(a, b)
+                if rr[0] != 0.0:
+                    return None
+                W = np.array(rr[3], dtype=float)
+                if not simplex_class(W, L_)[0].startswith("tetra"):
+                    return None
+                # rows that GJK did not write are uninitialised memory (C07-K1)
+                # and may form a 'proper' tetrahedron by accident: every row
+                # must be a point of A - B, i.e. A meets B translated by it
+                for w in W:
+                    if not finite(w):
+                        return None
+                    Bw = transform_spec(sc_["B"], np.eye(3), w, 1.0)
+                    if refdist(ref(sc_["A"]), ref(Bw), scale=L_)["lower"] > 1e-6 * L_:
+                        labels.append("epa-stale-row")
+                        return None
+                m = epa(rr[3], a, b)
+                return float(np.linalg.norm(m[0])) if m[2] else None
+            return run
+        e1 = call_lib(gjk_epa_on(scene, L), *objs(scene))
+        e2 = call_lib(gjk_epa_on(img, L2), *objs(img))
         if not isinstance(e1, LibError) and not isinstance(e2, LibError) and e1 is not None and e2 is not None:
             tol = 1e-6 * L * s + 1e-6 * L2
             labels.append("epa-compared")
